@@ -18,6 +18,12 @@ CHECKS = {
          "Two-step scripted pipeline (step 1 over-approximates, the last step decides); bounds as C01.", "DESIGN.md 3 C03"),
  "C05": ("spec/Conditions.tla states when Ready/Synced may be reported; TLC enumerates every combination of per-resource ready/apply/render outcomes, XR-level ready flag, function conditions (system and custom types), fatal result and prior conditions; each vector is two or three reconciles of the real composite.Reconciler with the real composers (and of the real claim.Reconciler with both syncers for the claim leg); TLC judges ReadyTruth, SyncedTruth, NoForgery, CustomKept, UnknownOnFatal, ClaimReady on the stored conditions.",
          "Exhaustive over the vector domain (6288 vectors) in both tiers; an erroring reconcile leaves the previous Ready condition: the property is read as a statement about what a reconcile newly asserts.", "DESIGN.md 3 C05"),
+ "C06": ("spec/Claim.tla models the claim reconcile of both syncers (one action per API call in code order, ok/fail/crash-after variants, stale cached reads of any earlier claim version, claim deletion, XR controller steps, a pre-existing XR bound to another claim under any name incl. the referenced one); behaviours are replayed on the real claim.Reconciler with the real syncers and name generator over simapi (stale reads served from the stored history); TLC judges OneXR, RefFirst, NoHijack on every recorded state.",
+         "XR reads are fresh; two claims racing for one unbound XR are out of the quantifier; a model without the resourceVersion check violates OneXR (witness cfg).", "DESIGN.md 3 C06"),
+ "C08": ("spec/Teardown.tla is the joint model of the definition, offered, claim and composite reconcilers with user deletions, Kubernetes CRD-instance cleanup, foreground GC, third-party finalizer removals and API errors; TLC explores their interleavings at call granularity; each schedule is replayed on the real reconcilers (one goroutine each, paused before the calls whose timing matters); TLC judges CrdAfterAll, StopAfterGone, XrdFinalizer, ClaimAfterXR on the recorded steps.",
+         "1 XRD, 1 claim, 1 XR, <=2-3 reconciles per actor. Known finding D9 (XR re-created between the XRD reconciler's List and Stop). The package-revision/Lock and composed-Usage clauses are judged by riders of other modules.", "DESIGN.md 3 C08"),
+ "C11": ("spec/XCRD.tla abstracts XRDs (versions, per-version spec/status property maps incl. names that shadow machinery fields, required lists, CEL rules, oneOf, name limits, claim names, default policies, conversion) and (old,new) pairs; every vector is materialised as a real XRD and run through the real ForCompositeResource / ForCompositeResourceClaim / ValidateUpdate / admission handler; TLC judges Versions, Scope, Owner, Author, Machinery, Collide, Immutable on the projected CRDs.",
+         "Standard machinery schema = what the code emits for a reference XRD without author properties (a change to the contents of the schema tables themselves is a blind spot).", "DESIGN.md 3 C11"),
  "C07": ("spec/FieldPartition.tla states the claim/XR field partition independently of the code's tables; TLC enumerates presence/absence classes of every machinery field, user fields that shadow machinery names at other nesting levels, reserved/unreserved label keys, update policies, both syncers, first sync and re-sync; each vector is pruned by the real generated claim CRD, run through the real Sync of both syncers on simapi (real SSA field ownership) and judged by 24 TLA+ formulas.",
          "Values are atoms; two behaviours the property does not demand are deliberately not asserted (DESIGN 3 C07); look-alike label keys are an observation outside the default runs.", "DESIGN.md 3 C07"),
  "C09": ("spec/ConnSecrets.tla: TLC enumerates connection detail maps, XRD key filters, extraction configs and every pre-state of source/destination secrets; the real publisher, extractor and claim propagator (and end-to-end the real XR and claim reconcilers) run on stored secrets; TLC judges Filtered, OnlyIfAsked, ExactCopy, NoRead, NoRewrite, ForeignUntouched, OwnerOnly on each recorded outcome.",
